@@ -228,6 +228,28 @@ def run(chk):
     kw = {k.arg: unparse(k.value) for k in pc[0].keywords} if pc else {}
     chk.check(bool(pc) and kw.get('float_dtype') == 'dtype' and kw.get('box') == "header['BoxSize']" and kw.get('ppd') == 'ppd' and unparse(pc[0].args[0]) == 'data',
               'C16-R4', RA, Q, 'unpack_pids receives data, box, ppd, float_dtype=dtype', '', f'unpack_pids call keywords {kw}', node=pc[0] if pc else fn)
+    # the header's ppd (a float in the files, possibly 1e-13 off an integer) reaches the decoder rounded to nearest, or unchanged
+    # (unpack_pids rounds it itself): never truncated
+    hp = [n for n in walk_no_nested(fn) if isinstance(n, ast.Subscript) and unparse(n) in ("header['ppd']", 'header["ppd"]')]
+    trunc = []
+    for h in hp:
+        q = getattr(h, '_parent', None)
+        while q is not None and isinstance(q, ast.expr):
+            if isinstance(q, ast.Call):
+                cn = dotted(q.func) or (q.func.attr if isinstance(q.func, ast.Attribute) else '')
+                if cn in ('round', 'np.round', 'np.rint', 'np.around'):
+                    break
+                if cn in ('int', 'np.int64', 'np.int32', 'np.intp', 'math.floor', 'math.trunc', 'np.floor', 'np.trunc', 'math.ceil', 'np.ceil') \
+                        or (cn == 'astype' or cn.endswith('.astype')):
+                    trunc.append(q)
+                    break
+            if isinstance(q, ast.BinOp) and isinstance(q.op, ast.FloorDiv):
+                trunc.append(q)
+                break
+            q = getattr(q, '_parent', None)
+    chk.check(bool(hp) and not trunc, 'C16-R4', RA, Q, "header['ppd'] is rounded to the nearest integer (or passed on unchanged), never truncated", f'{len(hp)} read(s)',
+              (f'{unparse(trunc[0])[:80]}: the header value is truncated, so a stored ppd of 1727.9999999999998 decodes lagr_pos on a 1727^3 lattice' if trunc
+               else "header['ppd'] is not read: the decoder does not get the file's own lattice size"), node=trunc[0] if trunc else fn)
     tr = [n for n in fn.body if isinstance(n, ast.Assign) and unparse(n.targets[0]) == 'table' and unparse(n.value) == 'table[:nread]']
     rets = [n for n in walk_no_nested(fn) if isinstance(n, ast.Return)]
     okt = len(tr) == 1 and len(rets) == 1 and unparse(rets[0].value) == 'table' and tr[0].lineno < rets[0].lineno
